@@ -50,7 +50,9 @@ use indexmap::IndexMap;
 use miette::NamedSource;
 use options::{CodeGenMode, Options};
 use package_name::PackageName;
-use pallas_addresses::{Address, Network, ShelleyAddress, ShelleyDelegationPart, StakePayload};
+use pallas_addresses::{
+    Address, Network, ShelleyAddress, ShelleyDelegationPart, ShelleyPaymentPart, StakePayload,
+};
 use pallas_primitives::conway::PolicyId;
 use std::{
     collections::{BTreeSet, HashMap, HashSet},
@@ -618,10 +620,12 @@ where
                         Network::Testnet
                     };
 
-                    Ok(validator.program.inner().address(
+                    // The script's hash depends on its Plutus version: the validator's own, as
+                    // recovered from the blueprint — not the one of the project's configuration.
+                    Ok(ShelleyAddress::new(
                         network,
+                        ShelleyPaymentPart::Script(validator.program.compiled_code_and_hash().0),
                         delegation_part.to_owned(),
-                        &self.config.plutus.into(),
                     ))
                 }
             },
